@@ -209,6 +209,10 @@ def maxVersion (s : State) : Option Nat :=
   | none => none
   | some (_, h) => assocGet s.verOf h
 
+/-- `MVCCHelper.SetVersion(hash, ver)`: the two hash<->version records of `SetVersionKV`. -/
+def setVersion (s : State) (ver : Nat) (hash : Bytes) : State :=
+  { s with verOf := assocSet s.verOf hash ver, hashAt := assocSet s.hashAt ver hash }
+
 /-- `AddMVCC` followed by writing the returned list. -/
 def add (s : State) (ver : Nat) (hash : Bytes) (prev : Option Bytes) (kvs : List (Bytes × Bytes)) :
     State × Res :=
